@@ -19,6 +19,8 @@ BLK = [R + "umem_alloc.c", R + "ubuf_block_mem.c", R + "ubuf_mem_common.c"]
 VS = [E + "vsched.c"]
 HARNESSES = {
     "c07_lin": {"src": [H + "c07_lin.c"] + VS},
+    "c08_wakeup": {"src": [H + "c08_wakeup.c", E + "simfd.c"] + VS},
+    "c09_refcount": {"src": [H + "c09_refcount.c", R + "ubuf_block_mem.c", R + "ubuf_mem_common.c"] + VS},
     "c03_block": {"src": [H + "c03_block.c"] + BLK},
     "c18_bits": {"src": [H + "c18_bits.c", R + "umem_alloc.c", R + "ubuf_block_mem.c", R + "ubuf_mem_common.c"]},
 }
@@ -115,4 +117,60 @@ CHECKS["C07"] = {
                "thorough": "2 threads x <=3 ops bound 4; 3 threads x <=2 ops bound 3; capacities 1-3"},
     "assumptions": DEFAULT_ASSUME + ["scheduling points: every uatomic_* and every plain uring_elem access; code between two points runs atomically",
                                      "sequentially consistent memory (x86-TSO + locked CAS before publication)"],
+}
+
+def _c09_jobs(tier):
+    q = tier == "quick"
+    jobs = [("c09_refcount", ["--mode", "ref", "--threads", 2, "--maxlen", 5, "--bound", 4 if q else 8, "--deadline", 70 if q else 800]),
+            ("c09_refcount", ["--mode", "ref", "--threads", 3, "--maxlen", 3 if q else 5, "--bound", 3 if q else 4, "--deadline", 70 if q else 800])]
+    for pool in (0, 1):
+        jobs.append(("c09_refcount", ["--mode", "ubuf", "--pool", pool, "--threads", 2, "--maxlen", 3, "--bound", 3 if q else 5, "--deadline", 70 if q else 800]))
+        jobs.append(("c09_refcount", ["--mode", "ubuf", "--pool", pool, "--threads", 3, "--maxlen", 3 if not q else 1, "--bound", 2 if q else 3, "--deadline", 70 if q else 800]))
+    return jobs
+
+CHECKS["C09"] = {
+    "engine": "vsched", "design_ref": "DESIGN.md section 3 C09",
+    "technique": "stateless preemption-bounded exploration of all interleavings of use/release (urefcount) and dup/free (real ubuf_block_mem over a counting allocator) by 2-3 threads",
+    "level_text": "Every interleaving with at most k preemptions (at every atomic operation, and every ring access for the pooled variant) of all balanced use/release programs of 2-3 threads, and of dup/free programs on a real shared block buffer with pool depth 0 and 1; oracle: harness-side outstanding-reference and destructor counters, counting allocator (area freed exactly once, never while a handle is live), manager refcounts back to 1, ASan. Bounded, not a proof.",
+    "level_note": "Sequentially consistent interleavings; programs up to 5 ops per thread; 3 threads at most.",
+    "jobs": {"quick": _c09_jobs("quick"), "thorough": _c09_jobs("thorough")},
+    "rule": "one execution = one complete schedule; every execution has >= 2 threads racing on the same counter, so all are counted non-trivial; states = scheduling points visited",
+    "bounds": {"quick": "ref: 2 threads x <=5 ops bound 4, 3 threads x <=3 ops bound 3; ubuf: 2 threads x <=3 ops bound 3, 3 threads x 1 op bound 2; pool 0/1",
+               "thorough": "ref: 2 threads bound 8 (unbounded in effect), 3 threads x <=5 ops bound 4; ubuf: 2 threads bound 5, 3 threads x <=3 ops bound 3"},
+    "assumptions": DEFAULT_ASSUME + ["scheduling points: every uatomic_* op and plain ring access"],
+}
+
+def _c08_jobs(tier):
+    q = tier == "quick"
+    dl = 70 if q else 800
+    jobs = []
+    def uq(L, P, C, E, style, gran, bound):
+        jobs.append(("c08_wakeup", ["--mode", "uqueue", "--len", L, "--prod", P, "--cons", C, "--elems", E, "--style", style,
+                                    "--gran", gran, "--bound", bound, "--deadline", dl]))
+    for style in ("once", "drain"):
+        uq(1, 1, 1, 2, style, "fine", 3 if q else 4)
+        uq(1, 2, 1, 1, style, "fine", 2 if q else 3)
+        uq(1, 2, 1, 1, style, "coarse", 4 if q else 6)
+        uq(2, 2, 1, 2, style, "coarse", 3 if q else 4)
+        uq(1, 1, 2, 2, style, "coarse", 3 if q else 5)
+        if not q:
+            uq(2, 2, 2, 1, style, "coarse", 3)
+            uq(1, 2, 2, 1, style, "coarse", 4)
+            uq(2, 1, 1, 3, style, "fine", 3)
+    jobs.append(("c08_wakeup", ["--mode", "udeal", "--contenders", 2, "--rounds", 2, "--bound", 4 if q else 7, "--deadline", dl]))
+    jobs.append(("c08_wakeup", ["--mode", "udeal", "--contenders", 3, "--rounds", 1, "--bound", 3 if q else 4, "--deadline", dl]))
+    if not q:
+        jobs.append(("c08_wakeup", ["--mode", "udeal", "--contenders", 3, "--rounds", 2, "--bound", 3, "--deadline", dl]))
+    return jobs
+
+CHECKS["C08"] = {
+    "engine": "vsched", "design_ref": "DESIGN.md section 3 C08",
+    "technique": "stateless preemption-bounded exploration of producers/consumers sleeping on simulated event descriptors (real uqueue.h/udeal.h), scheduler-level deadlock detection",
+    "level_text": "All interleavings with at most k preemptions, at atomic-op and descriptor read/write granularity, of producers and consumers that sleep on the queue's event descriptors exactly like the in-tree users, and of 2-3 contenders on a dealer; 'every unfinished thread asleep on a non-readable descriptor' is detected by the scheduler and judged against harness-side occupancy/holder counters. Bounded, not a proof.",
+    "level_note": "Simulated eventfd (Linux non-semaphore semantics). Coarse tier treats FIFO push/pop as atomic (justified by C07). Configurations: lengths 1-2, <=2 producers, <=2 consumers.",
+    "jobs": {"quick": _c08_jobs("quick"), "thorough": _c08_jobs("thorough")},
+    "rule": "one execution = one complete schedule; non-trivial = executions in which at least one push failed / pop starved / grab was refused (somebody went to sleep); states = scheduling points visited",
+    "bounds": {"quick": "uqueue L=1: 1P+1C x2 elems fine k<=3, 2P+1C fine k<=2 and coarse k<=4, 1P+2C coarse k<=3; L=2 2P+1C coarse k<=3; both consumer styles; udeal 2 contenders x2 rounds k<=4, 3 contenders k<=3",
+               "thorough": "same configurations one or two preemptions deeper, plus 2P+2C and 3 elements"},
+    "assumptions": DEFAULT_ASSUME + ["eventfd simulated in harness memory; watchers are level-triggered as with libev"],
 }
